@@ -114,7 +114,7 @@ pub open spec fn fill_ok(fill2w: Option<char>) -> bool {
 //@before <<<truncate_str_impl(s, display_width, tail, Some(' '))>>>| proof { assert(fill_ok(Some(' '))); }
 //@ fn src/ansi/mod.rs truncate_str_short
 //@| requires display_width < usize::MAX - 2,
-//@| ensures mtw(s@) > display_width ==> mtw(cow_view(&r)) <= display_width,
+//@| ensures mtw(s@) > display_width ==> mtw(cow_view(&r)) <= display_width,  // @C07,C09:a.short.truncation.is.never.wider.than.asked.and.leaves.a.fitting.text.alone
 //@|         mtw(s@) <= display_width ==> cow_view(&r) == s@,
 
 } // verus!
